@@ -333,6 +333,9 @@ package lua
 // OP_TAILCALL: thin contract (no implicit Go panic; inlined closeUpvalues/initCallFrame/CopyRange copies satisfy
 // the contracts of their source functions).
 //@ func jumpTable[OP_TAILCALL] [C02 C03 C07 C12]
+// a tail call to a Lua function REUSES the caller's activation: same frame object, and the callee's frame starts at the
+// caller's Base (also when the caller is a vararg function, whose LocalBase lies above its variable arguments)
+//@ assert@"cf.LocalBase = base + (cf.LocalBase - lbase + 1)" cf == old(L.currentFrame) && cf.Base == old(L.currentFrame.Base) && cf.TailCall == old(L.currentFrame.TailCall) + 1
 //@ requires protosOK() && Frame(L) && L.stack != nil && $inv(L.stack) && L.G != nil && regsValid(L) && opA(inst) < nreg(L) && fnsValid() && mtsValid(L) && uvsValid(L) && framesValid(L) && tabsValid()
 //@ requires opB(inst) != 0 ==> lb(L) + opA(inst) + opB(inst) <= top(L)
 //@ requires opB(inst) == 0 ==> lb(L) + opA(inst) + 1 <= top(L)
